@@ -67,9 +67,53 @@ def extract(repo):
     return rows, forms
 
 
+FACE_FILES = {"_tetra.py": ["TETRA4", "TETRA10"], "_hexa.py": ["HEXA8", "HEXA20", "HEXA27"], "_prism.py": ["PRISM6", "PRISM15", "PRISM18"]}
+
+
+def _table(tree, cls, prop, depth=0):
+    """the literal integer table returned by the property `prop` of class `cls` (`return self.<other>` is followed once)"""
+    fn = _fn(tree, prop, cls)
+    rets = [s for s in fn.body if isinstance(s, ast.Return)]
+    if len(fn.body) != 1 or len(rets) != 1:
+        raise Refuse(f"{cls}.{prop}: body is not a single return")
+    v = rets[0].value
+    if isinstance(v, ast.Attribute) and isinstance(v.value, ast.Name) and v.value.id == "self" and depth == 0:
+        return _table(tree, cls, v.attr, 1)
+    if not (isinstance(v, ast.Call) and ast.unparse(v.func) == "np.array" and v.args and isinstance(v.args[0], ast.List)):
+        raise Refuse(f"{cls}.{prop}: not a literal np.array table")
+    rows = []
+    for r in v.args[0].elts:
+        if not (isinstance(r, ast.List) and all(isinstance(e, ast.Constant) and isinstance(e.value, int) and e.value >= 0 for e in r.elts)):
+            raise Refuse(f"{cls}.{prop}: row {ast.unparse(r)} is not a list of node indices")
+        rows.append([e.value for e in r.elts])
+    return rows
+
+
+def extract_faces(repo):
+    """`faces` of every 3D element class (the node indices of each face, as MeshIO.Surface_reconstruction and
+    Get_dict_connect_Faces use them)"""
+    out = []
+    for fname, classes in FACE_FILES.items():
+        tree = ast.parse(open(os.path.join(repo, "EasyFEA", "FEM", "Elems", fname), encoding="utf-8").read())
+        for cls in classes:
+            out.append((cls, _table(tree, cls, "faces")))
+    mtree = ast.parse(open(os.path.join(repo, "EasyFEA", "Utilities", "MeshIO.py"), encoding="utf-8").read())
+    _need(_fn(mtree, "Surface_reconstruction"), ["faces = groupElem.faces", "connect = connectivity[:, face]", "allConnect.extend(connect.copy())",
+                                                  "connect = np.sort(connect, axis=1)", "counts = Counter(allIds)"], "Surface_reconstruction")
+    return out
+
+
 def write(repo: str, outdir: str) -> dict:
     rows, forms = extract(repo)
     os.makedirs(outdir, exist_ok=True)
+    faces = extract_faces(repo)
+    ftxt = ("-- GENERATED by tools/py2lean/gen_c08.py from /repo/EasyFEA/FEM/Elems/_tetra.py, _hexa.py, _prism.py — do not edit\n"
+            "namespace EasyFEAVerif.Gen.C08\n\n"
+            "/-- the `faces` table of every 3D element type: node indices of each face (corners first, then mid-edge nodes, then the face centre) -/\n"
+            "def faces : List (String × List (List Nat)) := [\n  "
+            + ",\n  ".join('("' + n + '", [' + ", ".join("[" + ", ".join(str(i) for i in r) + "]" for r in t) + "])" for n, t in faces)
+            + "]\n\nend EasyFEAVerif.Gen.C08\n")
+    _write_if_changed(os.path.join(outdir, "Faces.lean"), ftxt)
     frows = ",\n  ".join('("' + k + '", [' + ", ".join('"' + l.replace('"', "'") + '"' for l in v) + "])" for k, v in forms.items())
     txt = ("-- GENERATED by tools/py2lean/gen_c08.py from /repo/EasyFEA/Geoms/_utils.py and FEM/_group_elem.py — do not edit\n"
            "import Mathlib.LinearAlgebra.Matrix.Notation\nnamespace EasyFEAVerif.Gen.C08\n\n"
@@ -78,7 +122,7 @@ def write(repo: str, outdir: str) -> dict:
            + ";\n     ".join(", ".join(r) for r in rows) + "]\n\n"
            f"/-- the statements that define the movers and the normals -/\ndef forms : List (String × List String) := [\n  {frows}]\n\nend EasyFEAVerif.Gen.C08\n")
     _write_if_changed(os.path.join(outdir, "Movers.lean"), txt)
-    return dict(rows=rows, forms=list(forms))
+    return dict(rows=rows, forms=list(forms) + [f"faces:{n}" for n, _ in faces])
 
 
 if __name__ == "__main__":
